@@ -133,6 +133,9 @@ def expected(act, s, t):
             return MAIN, "reg", list(op), None, (("reg",) + op)
         if pc2[1] == "m_cl_body":
             return MAIN, "acq", [t["how"]], None, ("close", t["how"])
+        if set(t["closedfds"]) != set(s["closedfds"]):
+            f = min(set(t["closedfds"]) - set(s["closedfds"]))
+            return MAIN, "fdclose", [f], None, ("closefd", f)
         if top and t["started"] and not s["started"]:
             return MAIN, "tstart", None, None, ("start",)
         if top and pc2[1] == "m_run":
@@ -171,6 +174,12 @@ def expected(act, s, t):
     if act == "s_sel_begin":
         return SEL, "sel_begin", {"r": sorted(s["myargs"]["r"]), "w": sorted(s["myargs"]["w"])}, None, None
     if act == "s_sel_end":
+        if pc2[2] == "s_poll_begin":
+            return SEL, "sel_err", ["OSError", 9], {"err": True}, None
+        return SEL, "sel_end", None, {"rs": list(t["res"]["rs"]), "ws": list(t["res"]["ws"])}, None
+    if act == "s_poll_begin":
+        return SEL, "sel_begin", {"r": [drv.RAW_WAKER], "w": []}, None, None
+    if act == "s_poll_end":
         return SEL, "sel_end", None, {"rs": list(t["res"]["rs"]), "ws": list(t["res"]["ws"])}, None
     if act == "s_post":
         q = t["queue"][-1]
@@ -189,6 +198,7 @@ class ForcedRun(drv.Run):
         self.H.small_waker = False    # the simulation constants make every waker send succeed
         self.divergence = None
         self.allow_cb_close = False
+        self.allow_fdclose = False
         self.finishing = False
 
     # -- main thread: executes commands from the controller, then finishes in free mode
@@ -253,6 +263,8 @@ class ForcedRun(drv.Run):
             self.reg_op(*c[1:])
         elif c[0] == "close":
             self.do_close(c[1])
+        elif c[0] == "closefd":
+            self.close_fd(c[1])
         elif c[0] == "hs":
             cb, rs, ws = H.pending_hs.pop(0)
             cb(rs, ws)
@@ -276,6 +288,7 @@ class ForcedRun(drv.Run):
             b.setblocking(False)
             a.setsockopt(drv._real_socket.SOL_SOCKET, drv._real_socket.SO_SNDBUF, 4096)
             self.socks[f], self.peers[f] = a, b
+            self.fdnum[f] = a.fileno()
             H.fdidx[a.fileno()] = f
         t = drv._real_threading.Thread(target=self._main_thread, daemon=True)
         t.start()
@@ -308,11 +321,12 @@ class ForcedRun(drv.Run):
                     self.divergence = {"step": i, "act": act, "kind": "stuck", "exp": name,
                                        "obs": "thread %d reached no shim point" % th}
                     break
-                if where[0] != "gate" or where[1] != name:
+                gate_name = "sel_end" if name == "sel_err" else name     # EBADF is raised by the select call
+                if where[0] != "gate" or where[1] != gate_name:
                     self.divergence = {"step": i, "act": act, "kind": "gate", "exp": name,
                                        "obs": list(where)}
                     break
-                ctl.send(th, ("go", obs if name == "sel_end" else None))
+                ctl.send(th, ("go", obs if gate_name == "sel_end" else None))
                 if not ctl.wait_event(n0):
                     self.divergence = {"step": i, "act": act, "kind": "stuck", "exp": name, "obs": "no event logged"}
                     break
@@ -320,7 +334,7 @@ class ForcedRun(drv.Run):
                 exp = {"a": name, "t": th}
                 if args is not None:
                     exp["args"] = args
-                if obs is not None:
+                if obs is not None and name != "sel_err":
                     exp["obs"] = obs
                 got = {k: e.get(k) for k in exp}
                 if name == "wsend" and isinstance(got.get("obs"), dict):
